@@ -23,6 +23,12 @@ package discovery
 // by channel_updates (signer x direction bit x timestamp class) and
 // channel_announcements; oracle zombie_stays_dead_unless_authentic, see the
 // "Zombie index" section below.
+//
+// Cross-direction phase (after the zombie phase, own PRNG stream): authentic
+// channel_updates over the channel-flag / message-flag space crossed with
+// timestamp classes relative to EACH direction's stored policy, on channels
+// whose two directions hold far-apart / equal / missing policies; same
+// reference predicate and oracles, see the "Cross-direction phase" section.
 
 import (
 	"bytes"
@@ -2604,6 +2610,27 @@ func (s *verifC20Scn) genZombieCU() (string, lnwire.Message) {
 	class := verifC20ZTsNames[r.Intn(len(verifC20ZTsNames))]
 	u := s.buildCU(lnwire.NewShortChanIDFromInt(z.Scid), dir, s.zombieTs(class), k)
 	label := fmt.Sprintf("z.cu.%s.d%d.%s", signer, dir, class)
+	// Channel flags beyond the direction bit (disable bit, unknown bits) on
+	// 3 in 8 updates: the owner of a direction is given by the direction BIT
+	// only. The choice is derived from fields that were already drawn (and the
+	// signature is deterministic), so the phase's PRNG stream - and with it
+	// every other choice of the zombie phase - is the same as without it.
+	if x := u.BaseFee % 8; x < 3 {
+		unk := lnwire.ChanUpdateChanFlags(1+u.FeeRate%63) << 2
+		switch x {
+		case 0:
+			u.ChannelFlags |= lnwire.ChanUpdateDisabled
+			label += ".dis"
+		case 1:
+			u.ChannelFlags |= unk
+			label += ".unk"
+		default:
+			u.ChannelFlags |= lnwire.ChanUpdateDisabled | unk
+			label += ".dis+unk"
+		}
+		verifC20SignCU(u, k)
+		s.vc.Count("z_cu_nonplain_flags", 1)
+	}
 	if r.Chance(1, 12) {
 		if m2, _, ok := s.byteflip(u, r.Chance(1, 3)); ok {
 			return label + ".byteflip", m2
@@ -2751,6 +2778,9 @@ func (s *verifC20Scn) judgeZombies(label, kind string, m lnwire.Message, caScid 
 			"signer": zr.Signer, "authentic": zr.Authentic, "allowed": zr.Allowed,
 			"fresh": zr.Fresh, "verdict": zr.reason(), "resurrected": a == "", "cached": cached}
 		vc.Count("z_cu", 1)
+		if u.ChannelFlags&^lnwire.ChanUpdateDirection != 0 {
+			vc.Count(fmt.Sprintf("z_nonplain_flags_%s_d%d", zr.Signer, zr.Dir), 1)
+		}
 		if strings.HasPrefix(z.Shape, "odd") {
 			vc.Count(fmt.Sprintf("z_odd_%s_d%d", zr.Signer, zr.Dir), 1)
 		} else {
@@ -2806,7 +2836,383 @@ func verifC20Min(a, b int) int {
 	return b
 }
 
-func verifC20RunScenario(t *testing.T, vc *verifCtx, r *verifRng, steps, zsteps int) {
+// ---------------------------------------------------------------------------
+// Cross-direction phase ("x phase"): authentic channel_updates over the full
+// flag space x timestamp classes relative to EACH direction's stored policy.
+//
+// The 40 catalogue steps place timestamps relative to the stored policy of the
+// update's own direction only and corrupt flags one field at a time on
+// otherwise fresh messages. This phase drives the cross product instead: on a
+// channel whose two directions hold policies with timestamps far apart (both
+// orders), equal, or with one / both directions still without a policy, it
+// submits updates that are correctly signed by the owner of the flagged
+// direction (a few by the other node) with
+//   channel flags = direction bit x disable bit x unknown bits,
+//   message flags = with / without max-htlc x unknown bits,
+//   timestamp     = older than both stored timestamps / strictly between them
+//                   (own direction older, own direction newer) / equal to own /
+//                   equal to the other direction's / +-1 around either / newer
+//                   than both.
+// No new oracle: every message goes through submit(), i.e. the unchanged
+// reference predicate verifC20RefCU (signer = owner of the direction bit only,
+// strictly newer than the stored policy OF THAT DIRECTION, consistent fields)
+// and the unchanged oracles graph_unchanged_unless_valid,
+// not_relayed_unless_valid, applied_matches_message. "valid and fresh but not
+// applied" stays the diagnostic it is for every other update.
+// ---------------------------------------------------------------------------
+
+var verifC20XLayouts = []string{"none", "only0", "only1", "d0-older", "d0-older",
+	"d0-newer", "d0-newer", "equal"}
+
+func (s *verifC20Scn) xOurChannel(ch *verifC20Chan) bool {
+	return ch != nil && s.signerFor(ch.N1) != nil && s.signerFor(ch.N2) != nil && ch.N1 != ch.N2
+}
+
+// xChannel picks the channel of one x round: preferably a channel that is not
+// in the graph yet (announced here through a judged, valid
+// channel_announcement, so both directions start without a policy), else a
+// channel between our two nodes that is already in the graph.
+func (s *verifC20Scn) xChannel(nextIdx *int) (uint64, bool) {
+	c, r, vc := s.c, s.r, s.vc
+	var cands []*verifC20Slot
+	for _, sl := range s.slots {
+		if sl.Kind != verifC20KindGood {
+			continue
+		}
+		id := sl.scid().ToUint64()
+		if _, live := s.snap.chans[id]; live || s.snap.zomb[id] != "" {
+			continue
+		}
+		if z, err := c.builder.IsZombieEdge(sl.scid()); err != nil || z {
+			continue
+		}
+		cands = append(cands, sl)
+	}
+	if len(cands) > 0 && r.Chance(9, 10) {
+		sl := cands[r.Intn(len(cands))]
+		sl.Used = true
+		s.announced = append(s.announced, sl)
+		s.submit(*nextIdx, "x.pre.ca.valid", verifC20BuildCA(sl.scid(), s.keys))
+		*nextIdx++
+		if s.xOurChannel(s.snap.chans[sl.scid().ToUint64()]) {
+			vc.Count("x_chan_fresh", 1)
+			return sl.scid().ToUint64(), true
+		}
+		vc.Count("x_chan_fresh_not_added", 1)
+	}
+	var live []uint64
+	for id, ch := range s.snap.chans {
+		if s.xOurChannel(ch) {
+			live = append(live, id)
+		}
+	}
+	if len(live) == 0 {
+		return 0, false
+	}
+	sort.Slice(live, func(i, j int) bool { return live[i] < live[j] })
+	vc.Count("x_chan_reused", 1)
+	return live[r.Intn(len(live))], true
+}
+
+func verifC20XLayoutOf(ch *verifC20Chan) string {
+	p0, p1 := ch.Pol[0], ch.Pol[1]
+	switch {
+	case p0 == nil && p1 == nil:
+		return "none"
+	case p1 == nil:
+		return "only0"
+	case p0 == nil:
+		return "only1"
+	case p0.Ts < p1.Ts:
+		return "d0-older"
+	case p0.Ts > p1.Ts:
+		return "d0-newer"
+	}
+	return "equal"
+}
+
+// xSetup brings the stored policies of the channel into the wanted layout
+// with plain, valid updates (judged like any other step).
+func (s *verifC20Scn) xSetup(id uint64, layout string, nextIdx *int) {
+	r, vc := s.r, s.vc
+	ch := s.snap.chans[id]
+	base := uint64(1600100000 + r.Intn(50000000))
+	for d := 0; d < 2; d++ {
+		if p := ch.Pol[d]; p != nil && uint64(p.Ts) >= base {
+			base = uint64(p.Ts) + 1000 + uint64(r.Intn(100000))
+		}
+	}
+	gap := uint64(10000 + r.Intn(5000000))
+	if base+gap > 0xf0000000 {
+		// a far-future policy is stored (catalogue step cu.ts.farfuture):
+		// take the channel as it is.
+		vc.Count("x_setup_skipped_high_ts", 1)
+		return
+	}
+	var want [2]uint64
+	switch layout {
+	case "only0":
+		want[0] = base
+	case "only1":
+		want[1] = base
+	case "d0-older":
+		want[0], want[1] = base, base+gap
+	case "d0-newer":
+		want[0], want[1] = base+gap, base
+	case "equal":
+		want[0], want[1] = base, base
+	}
+	lscid := lnwire.NewShortChanIDFromInt(id)
+	first := r.Intn(2)
+	for i := 0; i < 2; i++ {
+		d := (first + i) % 2
+		if want[d] == 0 {
+			continue
+		}
+		cur := s.snap.chans[id]
+		if !s.xOurChannel(cur) {
+			return
+		}
+		own := cur.N1
+		if d == 1 {
+			own = cur.N2
+		}
+		s.submit(*nextIdx, fmt.Sprintf("x.pre.cu.d%d", d),
+			s.buildCU(lscid, d, uint32(want[d]), s.signerFor(own)))
+		*nextIdx++
+	}
+}
+
+type verifC20XTs struct {
+	name string
+	ts   uint64
+	w    int
+}
+
+// xGenCU generates one update of the cross product for the channel.
+func (s *verifC20Scn) xGenCU(id uint64) (string, *lnwire.ChannelUpdate1, int, string) {
+	r := s.r
+	ch := s.snap.chans[id]
+	d := r.Intn(2)
+	own, oth := ch.Pol[d], ch.Pol[1-d]
+
+	// channel flags: direction bit x disable bit x unknown bits.
+	cf, cfName := uint8(d), "plain"
+	switch x := r.Intn(20); {
+	case x < 4:
+	case x < 11:
+		cf, cfName = cf|uint8(lnwire.ChanUpdateDisabled), "dis"
+	case x < 15:
+		cf, cfName = cf|uint8(1+r.Intn(63))<<2, "unk"
+	default:
+		cf, cfName = cf|uint8(lnwire.ChanUpdateDisabled)|uint8(1+r.Intn(63))<<2, "dis+unk"
+	}
+	// message flags: with / without max-htlc x unknown bits.
+	mf, mfName := uint8(lnwire.ChanUpdateRequiredMaxHtlc), "max"
+	switch x := r.Intn(20); {
+	case x < 11:
+	case x < 16:
+		mf, mfName = mf|uint8(1+r.Intn(127))<<1, "max+unk"
+	case x < 18:
+		mf, mfName = 0, "nomax"
+	default:
+		mf, mfName = uint8(1+r.Intn(127))<<1, "nomax+unk"
+	}
+
+	// timestamp classes relative to both directions' stored timestamps.
+	g := uint64(1 + r.Intn(3))
+	if !r.Chance(1, 4) {
+		g = uint64(10000 + r.Intn(3000000))
+	}
+	var cl []verifC20XTs
+	add := func(name string, ts uint64, w int) {
+		if ts >= 1 && ts <= 0xffffffff {
+			cl = append(cl, verifC20XTs{name, ts, w})
+		}
+	}
+	switch {
+	case own != nil && oth != nil:
+		o, x := uint64(own.Ts), uint64(oth.Ts)
+		lo, hi := o, x
+		if lo > hi {
+			lo, hi = hi, lo
+		}
+		if lo > g {
+			add("lt-both", lo-g, 2)
+		}
+		add("eq-own", o, 2)
+		add("eq-oth", x, 2)
+		add("own-1", o-1, 1)
+		add("own+1", o+1, 1)
+		add("oth-1", x-1, 1)
+		add("oth+1", x+1, 1)
+		if hi-lo >= 2 {
+			n := "between.own-older"
+			if o > x {
+				n = "between.own-newer"
+			}
+			add(n, lo+1+r.U64n(hi-lo-1), 5)
+		}
+		add("gt-both", hi+g, 3)
+	case own != nil:
+		o := uint64(own.Ts)
+		if o > g {
+			add("lt-own.oth-none", o-g, 2)
+		}
+		add("eq-own.oth-none", o, 2)
+		add("own-1.oth-none", o-1, 1)
+		add("own+1.oth-none", o+1, 1)
+		add("gt-own.oth-none", o+g, 2)
+	case oth != nil:
+		x := uint64(oth.Ts)
+		if x > g {
+			add("lt-oth.own-none", x-g, 2)
+		}
+		add("eq-oth.own-none", x, 2)
+		add("oth-1.own-none", x-1, 1)
+		add("oth+1.own-none", x+1, 1)
+		add("gt-oth.own-none", x+g, 2)
+	default:
+		add("any.both-none", uint64(1600100000+r.Intn(50000000)), 1)
+	}
+	tot := 0
+	for _, c := range cl {
+		tot += c.w
+	}
+	pick := r.Intn(tot)
+	tc := cl[0]
+	for _, c := range cl {
+		if pick < c.w {
+			tc = c
+			break
+		}
+		pick -= c.w
+	}
+
+	ownKey, othKey := ch.N1, ch.N2
+	if d == 1 {
+		ownKey, othKey = ch.N2, ch.N1
+	}
+	signer, sfx := s.signerFor(ownKey), ""
+	if r.Chance(1, 8) {
+		signer, sfx = s.signerFor(othKey), ".othersig"
+	}
+
+	scid := lnwire.NewShortChanIDFromInt(id)
+	capMsat := s.capOf(scid) * 1000
+	minH := uint64(1 + r.Intn(1000))
+	maxH := capMsat / uint64(1+r.Intn(4))
+	if maxH < minH {
+		maxH = minH
+	}
+	u := &lnwire.ChannelUpdate1{
+		ChainHash:       *chaincfg.MainNetParams.GenesisHash,
+		ShortChannelID:  scid,
+		Timestamp:       uint32(tc.ts),
+		MessageFlags:    lnwire.ChanUpdateMsgFlags(mf),
+		ChannelFlags:    lnwire.ChanUpdateChanFlags(cf),
+		TimeLockDelta:   uint16(1 + r.Intn(2000)),
+		HtlcMinimumMsat: lnwire.MilliSatoshi(minH),
+		BaseFee:         uint32(r.Intn(100000)),
+		FeeRate:         uint32(r.Intn(100000)),
+	}
+	if mf&uint8(lnwire.ChanUpdateRequiredMaxHtlc) != 0 {
+		// (without the flag the field is not on the wire; a decoded message
+		// carries 0)
+		u.HtlcMaximumMsat = lnwire.MilliSatoshi(maxH)
+	}
+	verifC20SignCU(u, signer)
+	label := fmt.Sprintf("x.cu.d%d.%s.%s.%s%s", d, cfName, mfName, tc.name, sfx)
+	return label, u, d, cfName
+}
+
+// xRound runs one round of the x phase: pick / announce a channel, lay out its
+// stored policies, then n updates of the cross product.
+func (s *verifC20Scn) xRound(nextIdx *int, n int) bool {
+	r, vc := s.r, s.vc
+	id, ok := s.xChannel(nextIdx)
+	if !ok {
+		vc.Count("x_no_channel", 1)
+		return false
+	}
+	layout := verifC20XLayouts[r.Intn(len(verifC20XLayouts))]
+	s.log = append(s.log, map[string]any{"i": *nextIdx, "label": "x.channel", "type": "env",
+		"scid": id, "layout_wanted": layout})
+	*nextIdx++
+	s.xSetup(id, layout, nextIdx)
+	if ch := s.snap.chans[id]; s.xOurChannel(ch) {
+		vc.Count("x_layout_"+verifC20XLayoutOf(ch), 1)
+	}
+	vc.Count("x_rounds", 1)
+	for k := 0; k < n; k++ {
+		if verifC20SoftViolations(vc) > 20 {
+			return false
+		}
+		ch := s.snap.chans[id]
+		if !s.xOurChannel(ch) {
+			vc.Count("x_channel_lost", 1)
+			return true
+		}
+		label, u, d, cfName := s.xGenCU(id)
+		// coverage bookkeeping (reference verdict and the relation of the
+		// timestamp to the OTHER direction's stored one); the verdicts are
+		// given by submit().
+		ref := verifC20RefCU(u, ch)
+		own, oth := ch.Pol[d], ch.Pol[1-d]
+		vc.Count("x_cu", 1)
+		vc.Count("x_cf_"+cfName, 1)
+		vc.Count(fmt.Sprintf("x_d%d", d), 1)
+		switch {
+		case ref.Valid:
+			vc.Count("x_ref_valid", 1)
+			if oth != nil && u.Timestamp <= oth.Ts {
+				// fresh for its own direction although not newer than the
+				// other direction's stored policy.
+				vc.Count("x_fresh_own_stale_oth", 1)
+				vc.Count(fmt.Sprintf("x_fresh_own_stale_oth_d%d_%s", d, cfName), 1)
+			}
+		case ref.Reason == "not-newer":
+			vc.Count("x_ref_notnewer", 1)
+			if oth == nil || u.Timestamp > oth.Ts {
+				// stale for its own direction although newer than the other
+				// direction's stored policy (or the other has none).
+				vc.Count("x_stale_own_fresh_oth", 1)
+				if u.MessageFlags.HasMaxHtlc() {
+					vc.Count(fmt.Sprintf("x_stale_own_fresh_oth_d%d_%s", d, cfName), 1)
+				}
+			}
+			if oth == nil {
+				vc.Count("x_stale_own_oth_none", 1)
+			}
+		case ref.Reason == "bad-sig-for-direction":
+			vc.Count("x_ref_badsig", 1)
+			vc.Count("x_ref_badsig_"+cfName, 1)
+		default:
+			vc.Count("x_ref_fields", 1)
+		}
+		if own == nil {
+			vc.Count("x_own_none", 1)
+		}
+		s.submit(*nextIdx, label, u)
+		*nextIdx++
+		applied := false
+		if after := s.snap.chans[id]; after != nil {
+			applied = verifC20PolMatches(after.Pol[d], u)
+		}
+		switch {
+		case applied && ref.Valid:
+			vc.Count("x_valid_applied", 1)
+			vc.Count("x_valid_applied_"+cfName, 1)
+		case ref.Valid:
+			vc.Count("x_valid_refused", 1) // diagnostic (see judge: valid_not_applied)
+		case !applied:
+			vc.Count("x_invalid_refused_ok", 1)
+		}
+	}
+	return true
+}
+
+func verifC20RunScenario(t *testing.T, vc *verifCtx, r *verifRng, steps, zsteps, xrounds, xsteps int) {
 	var keys, sk [4]*btcec.PrivateKey
 	for i := range keys {
 		keys[i] = verifC20Key(r)
@@ -2912,6 +3318,18 @@ func verifC20RunScenario(t *testing.T, vc *verifCtx, r *verifRng, steps, zsteps 
 		idx++
 	}
 
+	// Cross-direction phase (own PRNG stream; after the zombie phase so that
+	// neither earlier phase is affected): see xRound.
+	s.r = r.Fork("xdir")
+	for j := 0; j < xrounds; j++ {
+		if verifC20SoftViolations(vc) > 20 {
+			return
+		}
+		if !s.xRound(&idx, xsteps) {
+			break
+		}
+	}
+
 	// Final flush: one more trickle so that late broadcasts are judged too.
 	c.waitBroadcast(c.quiesce())
 	c.waitBroadcast(c.quiesce())
@@ -3004,7 +3422,7 @@ func TestVerifC20(t *testing.T) {
 		}
 	}
 
-	const steps, zsteps = 40, 28
+	const steps, zsteps, xrounds, xsteps = 40, 28, 2, 12
 	total := vc.N(256, 14000)
 	if vc.Only < 0 && vc.Shard == 0 {
 		verifC20ProbeV2(t, vc)
@@ -3014,8 +3432,9 @@ func TestVerifC20(t *testing.T) {
 			continue
 		}
 		r := vc.Rng(i)
-		vc.Case(i, map[string]any{"scenario": i, "steps": steps, "zombie_steps": zsteps})
-		verifC20RunScenario(t, vc, r, steps, zsteps)
+		vc.Case(i, map[string]any{"scenario": i, "steps": steps, "zombie_steps": zsteps,
+			"x_rounds": xrounds, "x_steps": xsteps})
+		verifC20RunScenario(t, vc, r, steps, zsteps, xrounds, xsteps)
 		vc.CaseDone(i)
 	}
 }
